@@ -196,6 +196,36 @@ theorem padded_values_rejected :
     (newValueAsset " USD/2".toList).toOption = none ∧
     (newValueMonetary " USD/2 10".toList).toOption = none := by decide
 
+/-- Import with the posting check in `importLog` (proposed fix): every transaction
+    the import commits is well-formed, whatever the stream contains. -/
+theorem import_preserves_wellformed (txs : List (List RawPosting)) :
+    ∀ ps ∈ (importTxs true txs).1, ∀ p ∈ ps, WellFormed p := by
+  induction txs with
+  | nil => intro ps hps; cases hps
+  | cons q rest ih =>
+    intro ps hps
+    unfold importTxs at hps
+    split at hps
+    · cases hps
+    · rename_i hv
+      have hv : postingsValidate q 0 = none := by
+        cases h : postingsValidate q 0 with
+        | none => rfl
+        | some x => simp [h] at hv
+      rcases List.mem_cons.1 hps with rfl | h
+      · exact validate_ok_wellformed _ 0 hv
+      · exact ih ps h
+
+/-- EXPECTED FALSE without the check (the code as it is): a stream whose
+    NEW_TRANSACTION log carries a negative amount, a padded source and an asset
+    outside the pattern is committed as it is. Confirmed on the real `Import` over
+    the real SQL store (workload `importlog`). -/
+theorem import_unvalidated_counterexample :
+    (importTxs false [[badPosting]]).1 = [[badPosting]] ∧
+    (importTxs true [[badPosting]]).1 = [] ∧ (importTxs true [[badPosting]]).2 = true ∧
+    (postingsValidate [badPosting] 0).isSome = true := by
+  refine ⟨rfl, by decide, by decide, by decide⟩
+
 /-- The grammar alone does not guarantee valid assets: `A/B` is a token of the
     lexer rule `ASSET` (`[A-Z/0-9]+`) but not in the language of the asset pattern
     (so are `/`, `1A`, 18 letters, `USD/1234567`). Lexer language ⊄ pattern. -/
